@@ -23,6 +23,7 @@ scope.  That `Arc`/`Box`/raw-pointer code implements derived liveness and symbol
 addresses is established by the correspondence run + debug poisoning, not proved.
 -/
 import Woodpile.Proofs.IovecArena
+import Woodpile.Proofs.IovecOpsCheck
 
 namespace Woodpile.Props.C05
 open Woodpile.Iovec Woodpile.Arena
